@@ -32,6 +32,14 @@ impl CacheEntry {
     }
 }
 
+#[cfg(parol_verif)]
+impl CacheEntry {
+    /// Verification hook (only with `--cfg parol_verif`): the cached FOLLOW set
+    pub fn verif_follow_set(&self) -> &FollowSet {
+        &self.follow_set
+    }
+}
+
 /// Cache of FollowSets
 #[derive(Debug, Default)]
 pub struct FollowCache(pub [Rc<RefCell<CacheEntry>>; MAX_K + 1]);
